@@ -55,9 +55,24 @@ func main() {
 	if *groups != "" {
 		cfg.Groups = strings.Split(*groups, ",")
 	}
+	// harness list: name or name{k=v;k=v} (per-harness parameter overrides)
+	cfg.HarnessParams = map[string]map[string]int{}
 	for _, h := range strings.Split(*runList, ",") {
 		if h = strings.TrimSpace(h); h != "" {
-			cfg.Harnesses = append(cfg.Harnesses, h)
+			name := h
+			if i := strings.Index(h, "{"); i > 0 && strings.HasSuffix(h, "}") {
+				name = h[:i]
+				over := map[string]int{}
+				for _, kv := range strings.Split(h[i+1:len(h)-1], ";") {
+					if j := strings.Index(kv, "="); j > 0 {
+						var v int
+						fmt.Sscanf(kv[j+1:], "%d", &v)
+						over[kv[:j]] = v
+					}
+				}
+				cfg.HarnessParams[name] = over
+			}
+			cfg.Harnesses = append(cfg.Harnesses, name)
 		}
 	}
 	if len(cfg.Harnesses) == 0 {
